@@ -190,6 +190,110 @@ func checkC25(c *Ctx, r *Report) {
 		checkMonotoneRating(m, r, rc, sc)
 	}
 
+	// ---- R5: every sample of the window contributes to both aggregates
+	r.rule("C25.R5", "in recomputeLocked every sample adds its latency unconditionally, the error count grows exactly under sample.err, and both aggregates are divided by len(samples)", 4)
+	if rc := m.Func(pkgBrokerLib, "(*S3HealthMonitor).recomputeLocked"); rc != nil {
+		var body, header *ssa.BasicBlock
+		for _, b := range rc.Blocks {
+			if b.Comment != "rangeindex.body" {
+				continue
+			}
+			for _, in := range b.Instrs {
+				if ia, ok := in.(*ssa.IndexAddr); ok && dependsOnField(ia.X, tHealth, "samples") {
+					body = b
+				}
+			}
+		}
+		if body != nil {
+			for _, p := range body.Preds {
+				if p.Comment == "rangeindex.loop" {
+					header = p
+				}
+			}
+		}
+		if body == nil || header == nil {
+			r.unresolved("C25.R5", "recomputeLocked sample loop", "range loop over m.samples not found")
+		} else {
+			var latAdd, errAdd *ssa.BinOp
+			for _, b := range rc.Blocks {
+				for _, in := range b.Instrs {
+					bo, ok := in.(*ssa.BinOp)
+					if !ok || bo.Op != token.ADD || !header.Dominates(b) {
+						continue
+					}
+					if dependsOnField(bo.Y, "", "latency") || dependsOnField(bo.X, "", "latency") {
+						latAdd = bo
+					}
+					if k, ok := constInt(bo.Y); ok && k == 1 {
+						if _, isPhi := bo.X.(*ssa.Phi); isPhi && bo.X.(*ssa.Phi).Comment != "rangeindex" {
+							errAdd = bo
+						}
+					}
+				}
+			}
+			if latAdd == nil {
+				r.viol("C25.R5", "every sample's latency enters the average", m.Pos(rc.Pos()), "no accumulation of sample.latency found in the loop")
+			} else {
+				found, _, path := search(SearchSpec{Start: Loc{body, 0}, Target: func(in ssa.Instruction) bool { return in.Block() == header },
+					Blocker: func(in ssa.Instruction) bool { return in == ssa.Instruction(latAdd) }})
+				if found {
+					r.viol("C25.R5", "every sample's latency enters the average", m.Pos(latAdd.Pos()), "an iteration can skip the latency accumulation while the sample still counts in the divisor: a slow failing operation then lowers the average: "+renderPath(m, path))
+				} else {
+					r.ok("C25.R5", "every sample's latency enters the average", m.Pos(latAdd.Pos()), "")
+				}
+			}
+			if errAdd == nil {
+				r.viol("C25.R5", "the error count grows exactly under sample.err", m.Pos(rc.Pos()), "no error counter increment found in the loop")
+			} else {
+				isErr := atomBool("sample.err", vmField("", "err"), true)
+				res := checkGuarded(m, rc, errAdd, Guard{cl(isErr)})
+				// and every iteration with sample.err passes the increment
+				missed := false
+				for e := range passEdges(rc, []Atom{isErr}) {
+					if f, _, _ := search(SearchSpec{Start: Loc{e.from.Succs[e.succ], 0}, Target: func(in ssa.Instruction) bool { return in.Block() == header },
+						Blocker: func(in ssa.Instruction) bool { return in == ssa.Instruction(errAdd) }}); f {
+						missed = true
+					}
+				}
+				if res.OK && !missed {
+					r.ok("C25.R5", "the error count grows exactly under sample.err", m.Pos(errAdd.Pos()), "")
+				} else {
+					r.viol("C25.R5", "the error count grows exactly under sample.err", m.Pos(errAdd.Pos()), "the increment is not equivalent to sample.err: "+res.String())
+				}
+			}
+		}
+		for _, f := range []string{"avgLatency", "errorRate"} {
+			key := f + " is divided by the number of samples in the window"
+			n := 0
+			for _, st := range storesToField(rc, "broker.S3HealthMonitor", f) {
+				if k, ok := constInt(st.Val); ok && k == 0 {
+					continue
+				}
+				if _, isC := strip(st.Val).(*ssa.Const); isC {
+					continue
+				}
+				n++
+				q, ok := strip(st.Val).(*ssa.BinOp)
+				if ok && q.Op == token.QUO && dependsOnField(q.Y, tHealth, "samples") {
+					lenDiv := false
+					backSlice(q.Y, false, func(v ssa.Value) {
+						if lc, ok := v.(*ssa.Call); ok && calleeName(&lc.Call) == "builtin.len" {
+							lenDiv = true
+						}
+					})
+					if lenDiv {
+						r.ok("C25.R5", key, m.Pos(st.Pos()), "")
+						continue
+					}
+				}
+				r.viol("C25.R5", key, m.Pos(st.Pos()), "stored value is "+describe(st.Val))
+			}
+			if n == 0 {
+				r.unresolved("C25.R5", key, "no computed store found")
+			}
+		}
+	}
+
 	// ---- R3
 	callers := callersOf(m, "(*"+tHealth+").recomputeLocked")
 	allowed := map[string]bool{"State": true, "Snapshot": true, "RecordOperation": true}
